@@ -121,6 +121,22 @@ def reference(th, obs, base, n_list, rep=None):
     return None
 
 
+def inplace_scan(th, obs, kw, N):
+    """values of the observable at N uniform azimuths from one working point: phi set in place, prepare() called before and after some of the moves"""
+    import numpy as np
+    import gepard as g
+    w = g.DataPoint(**dict(kw, phi=0.0))
+    out = []
+    for k in range(N):
+        if k % 2 == 0:
+            w.prepare()                      # prepared at the PREVIOUS azimuth (e.g. for g.weight_BH), then moved
+        w.phi = k * 2 * math.pi / N
+        out.append(float(getattr(th, obs)(w)))
+        if k % 3 == 0:
+            w.prepare()
+    return np.array(out)
+
+
 def rand_config(rng, fset=None):
     """constant-CFF theory + physical kinematics without phi + target configuration"""
     fs = fset or rng.choice(B.FORMULA_SETS)
@@ -491,6 +507,34 @@ def oracle_B(rep, rng, ncfg, fset=None):
             if obs not in XSLIKE and scale > 1.0:
                 unphys += 1    # |asymmetry| > 1: a cross section of this random CFF set is negative somewhere
                 continue
+            if rng.random() < 0.25:
+                # "the same observable as a function of phi" as a user scans it: ONE working point, moved in phi in
+                # place and prepared at every step (as g.weight_BH needs), evaluated without vars=
+                import numpy as np
+                rep.case('oracle-B.inplace-scan', (fs, tgt, obs, i))
+                try:
+                    step = 8
+                    sv = inplace_scan(th, obs, kw, NT // step)
+                    if not np.allclose(sv, vals[:NT:step] if len(vals) == NT else vals[::8 * step], rtol=1e-9, atol=1e-12 * scale):
+                        full = inplace_scan(th, obs, kw, NT)
+                        k = int(np.argmax(np.abs(sv - (vals[:NT:step] if len(vals) == NT else vals[::8 * step]))))
+                        for n in range(-3, 4):
+                            code = float(getattr(th, obs)(g.DataPoint(**dict(kw, FTn=n))))
+                            four = fourier_ref(full, n)
+                            if abs(code - four) > ACC * scale:
+                                rep.violation('inplace-scan/%s/n%d' % (obs, n), '%s, target %s: %s harmonic FTn=%d = %r but the Fourier coefficient of the '
+                                              'observable scanned on one prepared point (phi set in place, prepare() called between the moves) is %r; at phi=%r '
+                                              'that point gives %r, a fresh point %r' % (fs, tgt, obs, n, code, four, k * 2 * math.pi * step / NT, float(sv[k]),
+                                                                                       float(vals[k * step] if len(vals) == NT else vals[k * 8 * step])),
+                                              dict(obs=obs, n=n, set=fs, target=tgt, kinematics=kw, model=m, code=code, scan_fourier=four))
+                                break
+                        else:
+                            rep.violation('inplace-scan/values/' + obs, '%s.%s evaluated on a prepared point moved in phi in place differs from the fresh-point '
+                                          'value (%r vs %r) though no harmonic is off by 1%%' % (fs, obs, float(sv[k]), float(vals[k * step])),
+                                          dict(obs=obs, set=fs, target=tgt, kinematics=kw, model=m), found_input=False)
+                except Exception as e:
+                    rep.violation('oracleB/exception/' + exc_name(e), '%s.%s on a prepared, moved point raised %r' % (fs, obs, e),
+                                  dict(set=fs, kinematics=kw, model=m))
             for n in range(-3, 4):
                 code = float(getattr(th, obs)(g.DataPoint(**dict(kw, FTn=n))))
                 err = abs(code - refs[n]) / scale
